@@ -990,7 +990,7 @@ class HfProtocol(utils.EventEmitter):
                 enabled = int(response.parameters[1]) != 0
                 logger.info(f"  - {indicator.name}: {enabled}")
                 if indicator in self.hf_indicators:
-                    self.hf_indicators[indicator].enabled = True
+                    self.hf_indicators[indicator].enabled = enabled
 
         logger.info("SLC setup completed")
         self._slc_initialized = True
@@ -1544,7 +1544,9 @@ class AgProtocol(utils.EventEmitter):
         )
         self.hf_indicators = collections.OrderedDict(
             {
-                indicator: HfIndicatorState(indicator=indicator)
+                indicator: HfIndicatorState(
+                    indicator=indicator, supported=True, enabled=True
+                )
                 for indicator in self.supported_hf_indicators.intersection(
                     peer_supported_indicators
                 )
@@ -1568,8 +1570,8 @@ class AgProtocol(utils.EventEmitter):
             self.send_error()
             return
 
-        for indicator in self.hf_indicators:
-            self.send_response(f'+BIND: {indicator.value},1')
+        for indicator, state in self.hf_indicators.items():
+            self.send_response(f'+BIND: {indicator.value},{int(state.enabled)}')
 
         self.send_ok()
 
